@@ -16,6 +16,7 @@ import (
 	"flag"
 	"fmt"
 	"os"
+	"regexp"
 	"sort"
 	"strings"
 	"time"
@@ -42,6 +43,43 @@ type node struct {
 	implKey  string
 	taint    string
 	depth    int
+}
+
+// crashText keeps the head of a worker death report and, when the log tail contains one, the panic message (the
+// tail of the log is where the cause is; the Core's request log comes before it).
+func crashText(c string) string {
+	for _, mark := range []string{"\npanic: ", "\nfatal error: "} {
+		if i := strings.LastIndex(c, mark); i >= 0 {
+			return vcommon.Short(c, 120) + " […] " + vcommon.Short(strings.TrimSpace(c[i:]), 700)
+		}
+	}
+	return vcommon.Short(c, 600)
+}
+
+var (
+	goroutineRe = regexp.MustCompile(`(?m)^goroutine \d+ \[running\]:\n`)
+	frameRe     = regexp.MustCompile(`(?m)^github\.com/bluenviron/mediamtx/internal/((?:[^\s(]|\(\*)+)\(`)
+)
+
+// crashKey is the class key of a worker death: the innermost function of the repository on the stack of the
+// panicking goroutine ("worker-crash" when there is none, or when it is the harness itself).
+func crashKey(c string) string {
+	i := strings.LastIndex(c, "\npanic: ")
+	if i < 0 {
+		i = strings.LastIndex(c, "\nfatal error: ")
+	}
+	if i < 0 {
+		return "worker-crash"
+	}
+	t := c[i:]
+	if loc := goroutineRe.FindStringIndex(t); loc != nil {
+		t = t[loc[1]:]
+	}
+	m := frameRe.FindStringSubmatch(t)
+	if m == nil || strings.HasPrefix(m[1], "zzverif/") {
+		return "worker-crash"
+	}
+	return "process-death:" + m[1]
 }
 
 func main() {
@@ -112,6 +150,7 @@ func main() {
 	levelSizes := []int{1}
 	exhaustive := true
 	leafEdits := 0
+	crashSplits, crashesNotReproduced := 0, 0
 	nLeaf := 0
 	for _, o := range ops {
 		if o.Leaf {
@@ -170,7 +209,7 @@ func main() {
 		}
 		// the deadline is checked between chunks so that a level that does not fit ends cleanly
 		var results []c12lib.Result
-		chunk := pool.N * 4
+		chunk := pool.N * 2
 		aborted := false
 		for lo := 0; lo < len(jobs); lo += chunk {
 			if time.Now().After(deadline) {
@@ -183,12 +222,53 @@ func main() {
 			}
 			results = append(results, pool.Run(jobs[lo:hi])...)
 		}
+		// A death of the worker process is attributed to ONE edit: the job is cut in halves that are executed again
+		// (fresh process, fresh Core, same history) until the dying part is a single edit; the other edits of the job
+		// keep their verdicts. A death that does not happen again is counted, not judged.
+		nJobs, nDone := len(jobs), len(results)
+		{
+			var rj []any
+			var rn []*node
+			var rr []c12lib.Result
+			var resolve func(job *Job, n *node, res c12lib.Result)
+			resolve = func(job *Job, n *node, res c12lib.Result) {
+				if res.Crash == "" || len(job.Ops) <= 1 {
+					rj, rn, rr = append(rj, job), append(rn, n), append(rr, res)
+					return
+				}
+				mid := len(job.Ops) / 2
+				a, b := *job, *job
+				a.Ops, a.OpIdx = job.Ops[:mid], job.OpIdx[:mid]
+				b.Ops, b.OpIdx = job.Ops[mid:], job.OpIdx[mid:]
+				crashSplits++
+				rs := pool.Run([]any{&a, &b})
+				if rs[0].Crash == "" && rs[1].Crash == "" {
+					crashesNotReproduced++
+				}
+				resolve(&a, n, rs[0])
+				resolve(&b, n, rs[1])
+			}
+			for i := range results {
+				resolve(jobs[i].(*Job), jobNode[i], results[i])
+			}
+			jobs, jobNode, results = rj, rn, rr
+		}
 		var next []*node
 		for i, res := range results {
 			n := jobNode[i]
 			if res.Crash != "" {
-				r.Violation("worker-crash", fmt.Sprintf("the process died while expanding history %v: %s", n.prefix, vcommon.Short(res.Crash, 600)),
-					map[string]any{"history": n.prefix})
+				job := jobs[i].(*Job)
+				what := fmt.Sprintf("the process died while expanding history %v", n.prefix)
+				rep := map[string]any{"base": "api only, paths: {p1: {maxReaders: 1}}", "history": n.prefix}
+				if len(job.Ops) == 1 {
+					what = fmt.Sprintf("the server process died: history %v then %v", n.prefix, job.Ops[0])
+					rep["edit"] = job.Ops[0]
+					rep["how"] = "start mediamtx with the base configuration, send the history then the edit to the Control API"
+				}
+				r.Violation(crashKey(res.Crash), what+": "+crashText(res.Crash), rep)
+				transitions++
+				r.Eval(1)
+				outcomes[job.Ops[0].Kind+"/process-death"]++
 				continue
 			}
 			var jr JobResult
@@ -275,7 +355,7 @@ func main() {
 		}
 		if aborted {
 			exhaustive = false
-			r.Note("deadline reached while expanding depth %d: %d of %d jobs of that level done", d, len(results), len(jobs))
+			r.Note("deadline reached while expanding depth %d: %d of %d jobs of that level done", d, nDone, nJobs)
 			break
 		}
 		completedDepth = d + 1
@@ -306,6 +386,8 @@ func main() {
 	sort.Strings(ocs)
 	r.Set("outcomes", ocs)
 	r.Set("worker_crashes", pool.Crashed.Load())
+	r.Set("jobs_cut_in_two_after_a_worker_death", crashSplits)
+	r.Set("worker_deaths_not_reproduced", crashesNotReproduced)
 	r.Set("jobs_reexecuted_after_an_environment_error", harnessRetries)
 	r.Note("informational, not a verdict: %d of %d reads issued right after a 200 answer (before the reload was known to be complete) "+
 		"differed from the read after quiescence", stale, early)
